@@ -2,6 +2,8 @@ import TcVerif.Model.Json
 import TcVerif.Model.JsonParse
 import TcVerif.Model.Replica
 import TcVerif.Proofs.JsonUuid
+import TcVerif.Proofs.JsonString
+import TcVerif.Proofs.JsonDoc
 import TcVerif.Proofs.SrcFromOp
 /-!
 # C14 — What is sent to the server is the documented operation format only  *(partial)*
@@ -16,13 +18,18 @@ Theorems:
 
 * every 128-bit task id survives print-then-parse (`C14_uuid_roundtrip`).
 
-NOT a theorem (hence *partial*): the whole-document round trip `decodeVersion (printVersion ops) =
-some ops` — the RFC 3339 timestamp printer against its parser (the civil-date inverse; `omega` did
-not finish on it within 30 minutes) and the fuel of the generic JSON parser.  It is checked on every run instead: the Lean judge requires of every document the real
-code sends that the model's reader decodes it to exactly the operations made and that re-printing
-reproduces it character for character, and the `wire` family makes the real reader and the model's
-reader agree on documents a foreign writer produces (other field orders, white space, escapes,
-timestamp precisions and offsets) and on malformed ones.
+* **the whole document is read back exactly** (`C14_document_roundtrip`): for every list of
+  operations with 128-bit task ids and instants of the years 0000–9999 (any sub-second part), any
+  property names and values, `decodeVersion (printVersion ops) = some ops` — the reader of the
+  documented format (generic JSON reader, uuid reader, RFC 3339 reader) recovers precisely the
+  operations that were printed, in order.  Ingredients: `C14_timestamp_roundtrip`
+  (`parseTimestamp (printTimestamp ns) = some ns`; the civil-date inverse rests on the monotonicity of
+  the year-of-era formula and a 400-row kernel-evaluated table), `C14_string_roundtrip`,
+  `C14_uuid_roundtrip`, and the fuel of the generic reader (document length + 1 always suffices).
+
+What stays *partial*: that serde_json/chrono/uuid print exactly `printVersion` is not a theorem about
+those crates; it is checked byte for byte on every document the real code sends (judge), and the
+real reader is compared with the model's reader on documents of a foreign writer (`wire` family).
 -/
 namespace Tc
 open Json
@@ -79,63 +86,6 @@ theorem C14_document_shape (ops : List SyncOp) :
 
 /-! ## strings -/
 
-theorem parseBody_plain (c : Char) (tail : List Char) (h1 : c ≠ '"') (h2 : c ≠ '\\')
-    (h3 : ¬ c.toNat < 0x20) :
-    parseBody (c :: tail) = (parseBody tail).map (fun (s, r) => (c :: s, r)) := by
-  conv => lhs; unfold parseBody
-  split <;> simp_all
-  omega
-
-theorem hexVal_hexDigitChar : ∀ k : Fin 16, hexVal (hexDigitChar k.val) = some k.val := by decide
-
-theorem hexVal_zero : hexVal '0' = some 0 := by decide
-
-theorem parseBody_u00 (c : Char) (tail : List Char) (hlt : c.toNat < 0x20) :
-    parseBody ('\\' :: 'u' :: '0' :: '0' :: hexDigitChar (c.toNat / 16) :: hexDigitChar (c.toNat % 16) :: tail)
-      = (parseBody tail).map (fun (s, r) => (c :: s, r)) := by
-  have h16 : c.toNat / 16 < 16 := by omega
-  have hm : c.toNat % 16 < 16 := by omega
-  have e1 := hexVal_hexDigitChar ⟨c.toNat / 16, h16⟩
-  have e2 := hexVal_hexDigitChar ⟨c.toNat % 16, hm⟩
-  simp only at e1 e2
-  have hn : ((0 * 16 + 0) * 16 + c.toNat / 16) * 16 + c.toNat % 16 = c.toNat := by omega
-  conv => lhs; unfold parseBody
-  simp only [hex4, hexVal_zero, e1, e2, hn]
-  have hs1 : ¬ (0xD800 ≤ c.toNat ∧ c.toNat ≤ 0xDBFF) := by omega
-  have hs2 : ¬ (0xDC00 ≤ c.toNat ∧ c.toNat ≤ 0xDFFF) := by omega
-  simp only [hs1, hs2, if_false, Char.ofNat_toNat]
-
-/-- parsing what `escChar c` printed yields `c` again, whatever follows -/
-theorem parseBody_esc (c : Char) (tail : List Char) :
-    parseBody (escChar c ++ tail) = (parseBody tail).map (fun (s, r) => (c :: s, r)) := by
-  unfold escChar
-  split
-  · subst_vars; conv => lhs; simp only [List.cons_append, List.nil_append]; unfold parseBody
-    simp
-  · split
-    · subst_vars; conv => lhs; simp only [List.cons_append, List.nil_append]; unfold parseBody
-      simp
-    · split
-      · subst_vars; conv => lhs; simp only [List.cons_append, List.nil_append]; unfold parseBody
-        simp
-      · split
-        · subst_vars; conv => lhs; simp only [List.cons_append, List.nil_append]; unfold parseBody
-          simp
-        · split
-          · subst_vars; conv => lhs; simp only [List.cons_append, List.nil_append]; unfold parseBody
-            simp
-          · split
-            · subst_vars; conv => lhs; simp only [List.cons_append, List.nil_append]; unfold parseBody
-              simp
-            · split
-              · subst_vars; conv => lhs; simp only [List.cons_append, List.nil_append]; unfold parseBody
-                simp
-              · split
-                · rename_i hlt
-                  simpa using parseBody_u00 c tail hlt
-                · rename_i h1 h2 _ _ _ _ _ h3
-                  simpa using parseBody_plain c tail h1 h2 h3
-
 /-- **every string survives print-then-parse**, whatever characters it contains and whatever
     follows the closing quote -/
 theorem C14_string_roundtrip (s rest : List Char) :
@@ -177,5 +127,27 @@ example : decodeVersion (printVersion [.create 5, .update 5 "a\"b\\\n\x01" (some
 theorem C14_source_from_op (ops : List Op) : sentDocument ops = printVersion (ops.filterMap Src.fromOp) := by
   have : Src.fromOp = Op.toSync := funext src_fromOp_eq
   rw [this]; rfl
+
+/-- **RFC 3339 timestamps survive print-then-parse**: every instant from 0000-01-01T00:00:00Z up to
+    (not including) 10000-01-01T00:00:00Z, with nanosecond resolution -/
+theorem C14_timestamp_roundtrip (ns : Int) (hlo : minNs ≤ ns) (hhi : ns < maxNs) :
+    parseTimestamp (printTimestamp ns) = some ns :=
+  parseTimestamp_printTimestamp ns hlo hhi
+
+/-- **the documented format is read back exactly**: the reader of the documented format applied to
+    the document a replica sends recovers precisely the operations sent, in order (`wfOp`: task ids
+    are 128-bit values, timestamps lie in the years 0000–9999) -/
+theorem C14_document_roundtrip (ops : List SyncOp) (h : ∀ o ∈ ops, wfOp o) :
+    decodeVersion (printVersion ops) = some ops :=
+  decodeVersion_printVersion ops h
+
+/-- … and therefore for what a replica sends for any batch of local operations -/
+theorem C14_sent_document_decodes (ops : List Op) (h : ∀ o ∈ ops.filterMap Op.toSync, wfOp o) :
+    decodeVersion (sentDocument ops) = some (ops.filterMap Op.toSync) :=
+  decodeVersion_printVersion _ h
+
+/-- non-vacuity: the hypotheses are met by ordinary operations (an update at 2023-11-14T22:13:20.5Z) -/
+example : wfOp (.update 5 "k" (some "v") 1700000000500000000) ∧ wfOp (.create (2 ^ 128 - 1)) := by
+  unfold wfOp minNs maxNs; omega
 
 end Tc
